@@ -271,7 +271,9 @@ class Speculation(Binary):
         # Since self.right could have side effects, both left and right
         # need to be PrimitiveValue to be simplified.
         if all(isinstance(arg, PrimitiveValue) for arg in self.args):
-            return self.left
+            # Like a substituted constant, the folded value is not a
+            # literal: (5 ?? 6) is an int, not coercible to byte.
+            return self.left.at(self.span)
         return self
 
     def evaluate(self, env):
